@@ -89,6 +89,12 @@ fn findings_except(o: &Outcome, world: &World, layout: &Layout, skip: Option<&st
                 }
             }
         }
+        // a finding without location belongs to the definition its message names
+        if let (Some(skip), None) = (skip, n.first.as_ref()) {
+            if n.message.contains(&format!("`{skip}`")) {
+                continue;
+            }
+        }
         n.first = None;
         v.push(n);
     }
@@ -210,6 +216,18 @@ fn one(runner: &Runner, seed: u64, i: usize, keys: usize) -> Res {
             if m != x0 {
                 report("hash-order", "same files and options, different hash key".into(), &b.base, &c, &x0, &m, &mut res);
                 break;
+            }
+        }
+    }
+    // relation 2': the same bytes handed over in small pieces (short reads are legal)
+    {
+        let mut c = b.base.clone();
+        c.plan.shortread = 3 + r_keys.below(300) as i64;
+        if let Some(o) = run(&c, &mut res) {
+            let m = multiset_exact(&parse_stdout(&o.stdout), &b.world);
+            *res.relations.entry("short-reads").or_default() += 1;
+            if m != x0 {
+                report("short-reads", format!("same files and options, read(2) returns at most {} bytes per call", c.plan.shortread), &b.base, &c, &x0, &m, &mut res);
             }
         }
     }
@@ -368,7 +386,9 @@ fn one(runner: &Runner, seed: u64, i: usize, keys: usize) -> Res {
         let mut cands: Vec<(usize, usize)> = Vec::new();
         for &fi in &b.project.named {
             for (di, d) in b.project.files[fi].defs.iter().enumerate() {
-                if !referenced.contains(&d.name) {
+                // (a name carried by two definitions cannot be told apart by position-free keys)
+                let twice = b.project.files.iter().flat_map(|f| f.defs.iter()).filter(|x| x.name == d.name).count() > 1;
+                if !referenced.contains(&d.name) && !twice {
                     cands.push((fi, di));
                 }
             }
@@ -484,7 +504,7 @@ pub fn run(env: &Env) -> i32 {
     cov.insert("reruns_with_equal_findings_but_different_bytes".into(), json!(results.iter().map(|r| r.byte_differences).sum::<usize>()));
     cov.insert("relation_checks".into(), json!(relations));
     {
-        let names = ["replay-identical", "clock-and-aslr", "hash-order", "reorder-definitions", "reorder-files", "missing-file-position", "directory-listing-order", "frame-add", "frame-remove", "stall-isolation"];
+        let names = ["replay-identical", "clock-and-aslr", "hash-order", "short-reads", "reorder-definitions", "reorder-files", "missing-file-position", "directory-listing-order", "frame-add", "frame-remove", "stall-isolation"];
         let mut probes: Vec<(&str, usize)> = names.iter().map(|k| (*k, relations.get(k).copied().unwrap_or(0))).collect();
         probes.push(("project with two or more analysis orders", results.iter().filter(|r| r.distinct_orders >= 2).count()));
         crate::report::add_probes(&mut cov, &probes);
